@@ -4,8 +4,11 @@ patch="$(readlink -f "$1")"; id="$2"; tier="${3:-quick}"
 cd /verif || exit 2
 if [ -n "$(git -C /repo status --porcelain)" ]; then echo "/repo not clean"; exit 2; fi
 git -C /repo apply "$patch" || { echo "patch does not apply"; exit 2; }
+# evidence written while /repo is patched is not evidence about /repo: keep the file aside
+[ -f "evidence/$id.json" ] && cp "evidence/$id.json" "/tmp/mutant.$$.evidence"
 ./check "$id" "$tier" > /tmp/mutant.$$.out 2>&1; rc=$?
 git -C /repo apply -R "$patch"
+[ -f "/tmp/mutant.$$.evidence" ] && mv "/tmp/mutant.$$.evidence" "evidence/$id.json"
 if [ -n "$(git -C /repo status --porcelain)" ]; then echo "WARNING: /repo not clean after revert"; git -C /repo status --porcelain; fi
 grep -E "^(VIOLATION|INCONCLUSIVE|HELD|VIOLATED)" /tmp/mutant.$$.out | cut -c1-400 | head -8
 rm -f /tmp/mutant.$$.out
